@@ -109,6 +109,9 @@ def _serialize_element(
             getattr(element, "required", None), list
         ):
             del schema["required"]
+    if schema.get("items") == []:
+        # Draft 6 has no empty tuple: every item is an additional item.
+        schema["items"] = schema.pop("additionalItems", True)
     if isinstance(element, CompositionElement):
         schema[element.mode] = element.elements
     if isinstance(element, Not):
